@@ -3078,9 +3078,10 @@ func (r *stack) implode(start, max int, spat []int) (tpat []int) {
 }
 
 func (r *stack) canPushNester(x any) (can bool) {
-	_, can = stackTypeAliasConverter(x)
-	if !r.positive(nnest) {
-		can = true
+	can = true
+	if r.positive(nnest) {
+		_, isStack := stackTypeAliasConverter(x)
+		can = !isStack
 	}
 	return
 }
